@@ -3,7 +3,7 @@
 // /repo/src/take.rs on every run (BODY! holes).  Everything else here is specification.
 // ===================================================================================================
 //@op take
-//@properties C01 C02 C03 C04 C05 C07 C13 C14 C17 C20
+//@properties C01 C02 C03 C04 C05 C06 C07 C13 C14 C17 C20
 //@ignore ctor = Tok_apply {}
 //@ignore apply = let source = source.into(); Tok_take {}
 
